@@ -34,7 +34,13 @@ def run(ctx):
         ctx.bridge('translator: %d select* functions of selects.py turned into predicate expressions' % info['selectors'], True)
     except Exception as e:   # noqa
         ctx.bridge('translator: selector table extracted', False, repr(e))
-    ctx.prove(['PetlProofs.Props.C13', 'PetlProofs.Props.C13Sel'], REQUIRED)
+    from translators import fingerprints as _fp
+    try:
+        _fpi = _fp.generate()
+        ctx.bridge('translator: fingerprints of the petl functions the hand-written models mirror (%d bodies)' % _fpi['names'], True)
+    except Exception as e:   # noqa
+        ctx.bridge('translator: source fingerprints extracted', False, repr(e))
+    ctx.prove(['PetlProofs.Props.C13', 'PetlProofs.Props.C13Sel', 'PetlProofs.Snapshot.C13'], REQUIRED + ['Petl.Snapshot.C13_sources_as_validated'])
     rng = ctx.rng
     n = 1500 if ctx.thorough() else 250
     jobs = []
